@@ -62,6 +62,9 @@ for metric in (NS1, NS2):
     quick.append(job("c09.lloyd_wide", secs=60, allow=("inexact",), n=600, k=2, d=1, sym=1, m=2, metric=metric))
     quick.append(job("c09.lloyd_wide", secs=90, allow=("inexact",), n=1100, k=3, d=2, sym=1, metric=metric))
 quick.append(job("c09.lloyd_wide", secs=60, allow=("inexact",), n=520, k=2, d=1, sym=2, metric=L1, tolshift=-9))
+# clusters made of copies of their own start centroid (48, 97, 106 copies ...): the update has to return it exactly
+for n, k in ((96, 2), (291, 3), (212, 2), (1000, 2)):
+    quick.append(job("c09.lloyd_wide", secs=30, allow=("inexact",), n=n, k=k, d=2, sym=0, dup=1, m=2, metric=NS2))
 extra.append(job("c09.lloyd_wide", secs=600, jobs=4, allow=("inexact",), n=520, k=2, d=1, sym=2, csym=1, B=16, metric=NS1))
 extra.append(job("c09.lloyd_wide", secs=300, allow=("inexact",), n=2100, k=4, d=2, sym=1, m=2, metric=NS2))
 
